@@ -159,6 +159,20 @@ theorem yields_uintRange (ft : FT) (min max : UInt64) (bias : Bool) (fuel : Nat)
     · rw [UInt64.le_iff_toNat_le, h3]; omega
   · right; exact h
 
+/-- `genUintRange` for arbitrary bounds: it continues with some value, or ends with an error -/
+theorem yields_uintRange_any (ft : FT) (min max : UInt64) (bias : Bool) (fuel : Nat)
+    (k : UInt64 × Bool × Bool → Prog) (src : Src) (ts : TS) :
+    (∃ a src' used kept toks ov,
+      (uintRange ft min max bias fuel (fun u l r => k (u, l, r))).run src ts = ((k a).run src' ts).after used kept toks [] ov) ∨
+    (∃ e, ((uintRange ft min max bias fuel (fun u l r => k (u, l, r))).run src ts).res = .error e) := by
+  by_cases hmm : min ≤ max
+  · rcases yields_uintRange ft min max bias fuel hmm k src ts with ⟨a, _, rest⟩ | ⟨e, he, _⟩
+    · exact Or.inl ⟨a, rest⟩
+    · exact Or.inr ⟨e, he⟩
+  · right
+    have hgt : min > max := by rw [gt_iff_lt, UInt64.lt_iff_toNat_lt]; rw [UInt64.le_iff_toNat_le] at hmm; omega
+    exact ⟨.panic "invalid range" siteAssert, by simp [uintRange, hgt, Prog.run, Out.ofRes]⟩
+
 /-- `genIndex`: for `n > 0` the index is `< n` -/
 theorem yields_index (ft : FT) (n : Nat) (bias : Bool) (fuel : Nat) (hn : 0 < n) (hsmall : n ≤ 2 ^ 64) :
     Yields (index ft n bias fuel) (fun i => i < n) := by
